@@ -92,7 +92,21 @@ fn decode(frame: &[u8], r: &mut Rng, d: &mut Digest) {
             Ok(mut sd) => {
                 let mut buf = vec![0u8; *r.pick(&[1usize, 7, 100, 4096, 70000])];
                 let mut guard = 0;
-                loop {
+                let to_end = r.chance(1, 3);
+                if to_end {
+                    // the I/O layer's own read_to_end (std's in std builds, the crate's in no_std builds) over the
+                    // streaming decoder; its return type differs between the layers, only success / failure is compared
+                    // (after a failure the bytes already appended depend on the buffer sizes the layer's read_to_end
+                    // happens to use - 32 bytes growing in std, 16 KiB in the crate's - so they are not compared)
+                    let mut all = Vec::new();
+                    if sd.read_to_end(&mut all).is_ok() {
+                        d.str("to-end-ok");
+                        out = all;
+                    } else {
+                        d.str("to-end-error");
+                    }
+                }
+                while !to_end {
                     guard += 1;
                     if guard > 2_000_000 {
                         d.str("stream-runaway");
@@ -307,7 +321,16 @@ fn decode_stream_only(frame: &[u8], r: &mut Rng, d: &mut Digest) {
         Ok(mut sd) => {
             let mut buf = vec![0u8; *r.pick(&[1usize, 33, 5000, 140_000])];
             let mut guard = 0;
-            loop {
+            let to_end = r.chance(1, 3);
+            if to_end {
+                let mut all = Vec::new();
+                if sd.read_to_end(&mut all).is_ok() {
+                    out = all;
+                } else {
+                    d.str("error");
+                }
+            }
+            while !to_end {
                 guard += 1;
                 if guard > 2_000_000 {
                     d.str("runaway");
